@@ -19,7 +19,7 @@ RULE = (
     "earlier attachments/links), add_path with/without origin/destination, well-formed or malformed (first element "
     "not a node; node where a link is due and vice versa at any position; ends in a link; single node; foreign objects "
     "None/str/int/float/Network). Enumerated tier: every path shape over the alphabet {node, link, foreign} up to "
-    "length 5 (quick) / 7 (thorough) x origin/destination given or not, applied to an empty and to a pre-built network. "
+    "length 5 (quick) / 7 (thorough) x origin/destination given or not, applied to an empty and to a pre-built network and with only two distinct nodes (closed paths, cycles); bulk arguments also as one-shot iterators. "
     "Non-trivial = history contains a replacement (link of an edge, origin or destination of a node) or a malformed "
     "path. Distinct = SHA-1 (random) / by construction (enumerated)."
 )
@@ -46,13 +46,13 @@ def enumerate_cases(tier, seed, shard, nshards):
     for k in range(1, K + 1):
         for shape in itertools.product("NLF", repeat=k):
             for o, d in ((None, None), ("o1", None), (None, "d1"), ("o1", "d1")):
-                for start in (0, 1):
+                for start in (0, 1, 2):
                     if idx % nshards == shard:
                         ni = li = fi = 0
                         path = []
                         for c in shape:
                             if c == "N":
-                                path.append(f"n{(ni + 2 * start) % 5}")
+                                path.append(f"n{(ni + 2 * start) % (5 if start < 2 else 2)}")  # start 2: only two nodes -> cycles, closed paths
                                 ni += 1
                             elif c == "L":
                                 path.append(f"l{(li + 2) % 4}")
@@ -60,7 +60,7 @@ def enumerate_cases(tier, seed, shard, nshards):
                             else:
                                 path.append(FOREIGN[fi % len(FOREIGN)])
                                 fi += 1
-                        yield {"universe": UNI, "ops": (pre if start else []) + [["add_path", path, o, d]]}
+                        yield {"universe": UNI, "ops": (pre if start == 1 else []) + [["add_path", path, o, d] + (["$gen"] if idx % 3 == 0 else [])]}
                     idx += 1
 
 
@@ -96,6 +96,9 @@ def cases(draw):
     op = st.one_of(
         st.tuples(st.just("add_node"), node).map(list),
         st.tuples(st.just("add_nodes"), st.lists(node, min_size=1, max_size=3)).map(list),
+        st.tuples(st.just("add_nodes"), st.lists(node, min_size=1, max_size=3), st.just("$gen")).map(list),
+        st.tuples(st.just("add_links"), st.lists(triple, min_size=1, max_size=3), st.just("$gen")).map(list),
+        st.tuples(st.just("add_path"), path(), st.one_of(st.none(), orig), st.one_of(st.none(), dest), st.just("$gen")).map(list),
         st.tuples(st.just("add_link"), node, link, node).map(list),
         st.tuples(st.just("add_links"), st.lists(triple, min_size=1, max_size=3)).map(list),
         st.tuples(st.just("add_origin"), orig, node).map(list),
@@ -157,6 +160,9 @@ def check_case(case, ctx):
         r = guarded(ctx, op[0], sim.apply, op)
         if crashed(r):
             return
+        if r[0] in ("raised", "invalid-accepted") and op[0] != "add_path":
+            sim.resync_model()
+            continue
         if op[0] == "add_path":
             wf = G.well_formed(op[1])
             if wf:
